@@ -83,16 +83,36 @@ def referenced_rects(world):
     return out
 
 
-def gen_targets(rng, world, n, for_input):
+def blank_positions(world):
+    """Unpopulated positions that some reference of the world covers."""
+    idx = Index(world)
+    out = []
+    for c in world['cells']:
+        if 'f' in c:
+            for x in refs_of(c['f']):
+                r = x if x[0] == 'r' else world['names'][x[1]]['t']
+                for p in rect_cells(r):
+                    if idx.occupant(p) is None and list(p) not in out:
+                        out.append(list(p))
+    return out
+
+
+def gen_targets(rng, world, n, for_input, blanks=False):
     idx = Index(world)
     cells = list(range(len(world['cells'])))
     rects = referenced_rects(world)
     names = list(range(len(world['names'])))
+    bl = blank_positions(world) if blanks and for_input else []
     out, used = [], set()
     for _ in range(n):
         kind = rng.weighted([('cell', 6), ('name', 1.5 if names else 0),
-                             ('range', 1.5 if rects else 0)])
-        if kind == 'cell':
+                             ('range', 1.5 if rects else 0),
+                             ('blank', 2.5 if bl else 0)])
+        if kind == 'blank':
+            p = rng.pick(bl)
+            t = ['blank', p]
+            pos = [tuple(p)]
+        elif kind == 'cell':
             i = rng.pick(cells)
             t = ['cell', i]
             pos = cell_positions(world['cells'][i])
@@ -116,7 +136,11 @@ def gen_targets(rng, world, n, for_input):
             # the cells exist; what other, overlapping rectangles see of a
             # value pushed onto *unpopulated* positions is not something the
             # statement settles.
-            if t[0] != 'cell' and any(idx.occupant(p) is None for p in pos):
+            # (With ``blanks`` the rule is lifted: such overrides are used
+            # in histories, and in observed calculations that are judged by
+            # the differential clauses only.)
+            if t[0] in ('name', 'range') and not blanks and any(
+                    idx.occupant(p) is None for p in pos):
                 continue
             cut = False
             for p in pos:
@@ -133,15 +157,17 @@ def gen_targets(rng, world, n, for_input):
 
 
 def shape_of(world, t):
+    if t[0] == 'blank':
+        return (1, 1)
     if t[0] == 'cell':
         return tuple(world['cells'][t[1]].get('arr') or (1, 1))
     r = world['names'][t[1]]['t'] if t[0] == 'name' else t[1]
     return (r[5] - r[3] + 1, r[6] - r[4] + 1)
 
 
-def gen_inputs(rng, world, n):
+def gen_inputs(rng, world, n, blanks=False):
     ins = []
-    for t in gen_targets(rng, world, n, True):
+    for t in gen_targets(rng, world, n, True, blanks):
         h, w = shape_of(world, t)
         if (h, w) == (1, 1):
             v = gen_value(rng)
@@ -158,7 +184,8 @@ def gen_op(rng, world, kind_file):
                       ('write_disk', 1), ('deepcopy', 1), ('finish', 1)])
     op = {'op': k}
     if k in ('calc', 'calc_fault'):
-        op['inputs'] = gen_inputs(rng, world, rng.randrange(0, 4))
+        op['inputs'] = gen_inputs(rng, world, rng.randrange(0, 4),
+                                  blanks=rng.chance(.5))
         op['outputs'] = gen_targets(rng, world, rng.randrange(1, 4), False) \
             if rng.chance(.3) else None
     elif k == 'compile':
@@ -207,7 +234,8 @@ def generate(seed, tier):
     ops = [gen_op(orng, world, kind == 'file')
            for _ in range(orng.randrange(0, t['max_ops'] + 1))]
     observed = {'op': 'calc',
-                'inputs': gen_inputs(orng, world, orng.randrange(0, 4)),
+                'inputs': gen_inputs(orng, world, orng.randrange(0, 4),
+                                     blanks=orng.chance(.3)),
                 'outputs': gen_targets(orng, world, orng.randrange(1, 4),
                                        False) if orng.chance(.3) else None}
     return {'prop': ID, 'seed': seed, 'tier': tier, 'world': world,
@@ -226,6 +254,8 @@ def to_lib(v):
 
 
 def target_id(world, P, t):
+    if t[0] == 'blank':
+        return P.cell_id(*t[1])
     if t[0] == 'cell':
         return P.rect_id(*cell_rect(world['cells'][t[1]]))
     if t[0] == 'name':
@@ -237,9 +267,13 @@ def lib_inputs(world, P, m, ins):
     d, skipped = {}, 0
     for t, v in ins:
         key = target_id(world, P, t)
-        if key not in m.dsp.nodes:
+        if key not in m.dsp.nodes and t[0] != 'blank':
             skipped += 1   # never create nodes by spelling an id
             continue
+        # (a blank cell inside a referenced rectangle, spelt canonically, is
+        # the one exception: the library's range assembler looks such cells
+        # up in the solution - `calculate(inputs={"...!B3": 1})` imposes a
+        # value on an empty cell, as in the README)
         d[key] = to_lib(v)
     return d, skipped
 
@@ -353,6 +387,9 @@ def pins_of(world, ins):
         if t[0] == 'cell':
             c = world['cells'][t[1]]
             b, s, r1, c1, r2, c2 = cell_rect(c)
+        elif t[0] == 'blank':
+            b, s, r1, c1 = t[1]
+            r2, c2 = r1, c1
         else:
             r = world['names'][t[1]]['t'] if t[0] == 'name' else t[1]
             b, s, r1, c1, r2, c2 = r[1:]
@@ -386,7 +423,20 @@ def observe_calc(world, P, s, m, op):
 
 
 def effective_inputs(world, P, m, ins):
-    return [[t, v] for t, v in ins if target_id(world, P, t) in m.dsp.nodes]
+    return [[t, v] for t, v in ins
+            if t[0] == 'blank' or target_id(world, P, t) in m.dsp.nodes]
+
+
+def covers_blank(world, ins):
+    idx = Index(world)
+    for t, _ in ins:
+        if t[0] == 'blank':
+            return True
+        if t[0] in ('name', 'range'):
+            r = world['names'][t[1]]['t'] if t[0] == 'name' else t[1]
+            if any(idx.occupant(p) is None for p in rect_cells(r)):
+                return True
+    return False
 
 
 def execute(trace, env=None):
@@ -404,6 +454,18 @@ def execute(trace, env=None):
         v.update(kw)
         viol.append(v)
 
+    # The reference (a fresh model given the observed inputs) is computed
+    # FIRST, before the long-lived model exists and before any operation of
+    # the history has run, so that state shared at module level (caches,
+    # memoised buffers) cannot pollute reference and subject alike.
+    obs_op = trace['observed']
+    pre = None
+    try:
+        fresh = build(world, s)
+        pre = observe_calc(world, P, s, fresh, obs_op)
+        del fresh
+    except Exception:
+        pre = None
     try:
         m = build(world, s, log)
     except Exception as ex:
@@ -419,7 +481,6 @@ def execute(trace, env=None):
             fail('C07.history', 'operation %s raised %r' % (op['op'], ex),
                  tb=traceback.format_exc()[-1500:])
             return result(trace, viol, log, stats, False)
-    obs_op = trace['observed']
     try:
         obs, ins, outs, sol, skipped = observe_calc(world, P, s, m, obs_op)
     except Exception as ex:
@@ -438,8 +499,10 @@ def execute(trace, env=None):
         obs = Observation(world, s['placement'], sol, list(m.cells))
     got = obs.normal()
     # --- C07.fresh: same inputs on a fresh model of the same world
-    fresh = build(world, s)
-    fobs, fins, fouts, fsol, _ = observe_calc(world, P, s, fresh, obs_op)
+    if pre is None:
+        fail('C07.fresh', 'a fresh model cannot do the observed calculation')
+        return result(trace, viol, log, stats, False)
+    fobs, fins, fouts, fsol, _ = pre
     want = fobs.normal()
     stats['fresh_compared'] += 1
     for key in sorted(want):
@@ -481,7 +544,11 @@ def execute(trace, env=None):
     eff = effective_inputs(world, P, m, obs_op['inputs'])
     pinned_cells, pinned_pos = pins_of(world, eff)
     fp = FixedPoint(world, s['placement'])
-    if not outs:
+    blanky = covers_blank(world, eff)
+    if blanky:
+        stats['observed_with_blank_override'] = stats.get(
+            'observed_with_blank_override', 0) + 1
+    if not outs and not blanky:
         # every overridden position is a populated cell (generator rule), so
         # dependents are judged on the *observed* values of those cells and
         # the overridden cells themselves against the supplied values
@@ -495,7 +562,7 @@ def execute(trace, env=None):
                 what, i, exp, g, sorted(ins)), cell=i)
     # --- C07.alias: name / range override == overriding the underlying cells
     al = alias_inputs(world, eff)
-    if al is not None and not outs:
+    if al is not None and not outs and not blanky:
         fresh3 = build(world, s)
         op3 = {'op': 'calc', 'inputs': al, 'outputs': None}
         aobs, _, _, _, sk = observe_calc(world, P, s, fresh3, op3)
@@ -536,7 +603,7 @@ def alias_inputs(world, ins):
     idx = Index(world)
     out, any_alias = [], False
     for t, v in ins:
-        if t[0] == 'cell':
+        if t[0] in ('cell', 'blank'):
             out.append([t, v])
             continue
         any_alias = True
@@ -555,7 +622,7 @@ def covered_formula_cells(world, ins):
     idx = Index(world)
     out = set()
     for t, _ in ins:
-        if t[0] == 'cell':
+        if t[0] in ('cell', 'blank'):
             continue
         r = world['names'][t[1]]['t'] if t[0] == 'name' else t[1]
         for p in rect_cells(r):
@@ -653,6 +720,8 @@ def sample(trace):
 def _fix_targets(op, w, meta, dropped_cell=None):
     """Drop overrides / outputs that refer to cells removed by a shrink."""
     def ok(t):
+        if t[0] == 'blank':
+            return Index(w).occupant(tuple(t[1])) is None
         if t[0] == 'cell':
             return t[1] < len(w['cells'])
         if t[0] == 'name':
